@@ -106,7 +106,8 @@ func checkPatchConditions(oldRoot, newRoot *etree.Element) (expiration time.Time
 	if oldTTL == nil {
 		return expiration, fmt.Errorf("no ttl attribute in PatchLocation element in old MPD")
 	}
-	ttl, err := strconv.Atoi(oldTTL.Value)
+	ttlF, err := strconv.ParseFloat(oldTTL.Value, 64) // ttl is an xs:double: "60.0" and "1e+06" are valid forms
+	ttl := int(ttlF)
 	if err != nil {
 		return expiration, fmt.Errorf("failed to convert ttl attribute in PatchLocation element in old MPD: %w", err)
 	}
